@@ -493,7 +493,7 @@ func cmdGrammar(args []string) {
 
 var cntKinds = []string{"cnt-1", "cnt+1", "cntfd", "cntfe", "cntffmax", "cntffbig", "cntneg", "cntwrap", "vec+1", "vec-1"}
 var lenKinds = []string{"lenover1", "lenfd", "lenfe", "lenff"}
-var valKinds = []string{"val+1", "val-1", "valfd", "valfe", "valff"}
+var valKinds = []string{"val+1", "val+2", "val-1", "valfd", "valfe", "valff"}
 var frameKinds = []string{"badmagic", "badsum", "oversize", "encflag", "encflag0", "lenover1", "cmdfull"}
 
 // alphabet derives every payload class of every command from the grammar (the same derivation as Classes(cmd) in spec/P2P.tla).
@@ -504,6 +504,10 @@ func alphabet(w *World) (out []Class) {
 			for _, k := range frameKinds {
 				out = append(out, Class{c, k, 0})
 			}
+			continue
+		}
+		if c == "txo2" || c == "cmpctblock4" { // ContextOnly in the specification
+			out = append(out, Class{c, "valid", 0})
 			continue
 		}
 		s := w.valid(c, make([]byte, 8))
@@ -597,6 +601,11 @@ func main() {
 		cmdBytes(os.Args[2:])
 	case "alphabet":
 		cmdAlphabet(os.Args[2:])
+	case "collide":
+		w := newWorld(os.Args[2])
+		t0 := time.Now()
+		a, b, sid := w.collidingOrphans()
+		fmt.Fprintf(os.Stderr, "collideHint = [2]uint32{%d, %d} sid=%012x found in %v\n", a, b, sid, time.Since(t0))
 	default:
 		os.Exit(2)
 	}
